@@ -2,8 +2,11 @@
 (* Structural configuration space of C11: operator / built-in equation x dimensions (time first) x embedding
    size x outputs x batch size per axis (including batches smaller than the dimension). *)
 EXTENDS Naturals, Sequences, FiniteSets, TLC, Json
+CONSTANT Sel      \* "all" (C11), "operators" (forward-mode side of C01), "equations" (forward-mode side of C02)
 VARIABLES cfg
-Ops == {"lap", "div", "veclap", "veclapdef", "adv", "masscons", "burgers", "fisher", "ou", "ns"}
+OperatorOps == {"lap", "div", "veclap", "veclapdef", "adv"}
+EquationOps == {"masscons", "burgers", "fisher", "ou", "ns"}
+Ops == CASE Sel = "operators" -> OperatorOps [] Sel = "equations" -> EquationOps [] OTHER -> OperatorOps \cup EquationOps
 All == [kind : {"fr_struct"}, op : Ops, d : 1..3, withT : BOOLEAN, R : 1..2, M : 1..3, b : 1..3, deg : 1..2, Tmax : {1, 2}]
 NS(c) == c.d - (IF c.withT THEN 1 ELSE 0)          \* number of spatial dimensions
 OK(c) == /\ NS(c) >= 1
